@@ -39,7 +39,13 @@ def run(rep, tier="quick", replay=None, evidence_dir=None):
     n = 0
     for R in sorted(spec):
         want = set(spec[R]["spec"])
-        cells = dict((V, c) for (V, r), c in T["cells"].items() if r == R)
+        cells = {}
+        for (V, r), c in T["cells"].items():
+            if r.split("(")[0] != R:
+                continue
+            if V in cells and cells[V]["cls"] != c["cls"]:
+                c = dict(c, cls="maybe")
+            cells[V] = c
         if not cells:
             rep.ob("C08.R1", "reader shape %s has a resolver table" % R, False, "no cells extracted for %s" % R, "")
             continue
